@@ -1,5 +1,6 @@
 import itertools
 import os
+import shutil
 from types import MappingProxyType
 from typing import Sequence, Optional, Tuple, Mapping, Callable
 
@@ -391,7 +392,13 @@ class _PartialExecutor:
 
     def _construct_and_set_sds(self):
         sds_root_dir_name = self.conf.exe_conf.sds_root_dir_resolver()
-        self.__sandbox_directory_structure = construct_at(resolved_path_name(sds_root_dir_name))
+        try:
+            self.__sandbox_directory_structure = construct_at(resolved_path_name(sds_root_dir_name))
+        except Exception:
+            # The sandbox could not be built (e.g. no space left on the device):
+            # do not leave the partly built directory structure behind.
+            shutil.rmtree(sds_root_dir_name, ignore_errors=True)
+            raise
 
     def _post_setup_validation_environments(self, phase: phase_identifier.Phase
                                             ) -> InstructionEnvPostSdsGetter:
